@@ -718,8 +718,47 @@ def _roundtrip_routes(G, gtype, fmt, route, cls, results):
                     sys.stdin = old_stdin
 
 
+def run_no_format(case):
+    """a stream that does not tell its format (no name, or a name that is not a path: a file descriptor, None) and no
+    format given: the documented answer is ValueError ("cannot guess a file format ... specify the format manually")"""
+    import cnfgen.graphs as cg
+    gtype, kind, api = case['gtype'], case['stream'], case['api']
+    text = {'simple': '3\n1 : 0\n2 : 1 0\n3 : 1 2 0\n', 'dag': '3\n1 : 0\n2 : 1 0\n3 : 1 2 0\n',
+            'digraph': '3\n1 : 0\n2 : 1 0\n3 : 1 2 0\n', 'bipartite': '2 2\n1 : 1 2 0\n2 : 2 0\n'}[gtype]
+    fds = []
+    try:
+        if kind == 'stringio':
+            src = io.StringIO(text)
+        elif kind == 'named-none':
+            src = io.StringIO(text)
+            src.name = None
+        elif kind == 'named-int':
+            src = io.StringIO(text)
+            src.name = 7
+        else:                      # the read end of a pipe: its name is the file descriptor
+            r, w = os.pipe()
+            with os.fdopen(w, 'w') as wf:
+                wf.write(text)
+            src = os.fdopen(r)
+            fds.append(src)
+        what = "reading a {} graph from a stream of kind {} without telling the format ({})".format(gtype, kind, api)
+        try:
+            if api == 'readGraph':
+                cg.readGraph(src, gtype)
+            else:
+                {'simple': cg.Graph, 'dag': cg.DirectedGraph, 'digraph': cg.DirectedGraph, 'bipartite': cg.BipartiteGraph}[gtype].from_file(src)
+        except ValueError:
+            return Outcome(labels=['route:no-format', 'nameless:' + kind], rejected=True, nontrivial=True)
+        raise Violation("{}: accepted, although nothing names a format".format(what))
+    finally:
+        for f in fds:
+            f.close()
+
+
 def run_roundtrip(case):
     from cnfgen.graphs import supported_graph_formats
+    if case['route'] == 'no-format':
+        return run_no_format(case)
     if case['route'] == 'stream':
         return run_stream(case)
     if case['route'] == 'subprocess':
@@ -862,6 +901,10 @@ def enum_roundtrip(tier):
                            'edges': [p for i, p in enumerate(P) if (mask >> i) & 1]}
     for c in enum_streams(tier):
         yield c
+    for gtype in ('simple', 'dag', 'digraph', 'bipartite'):
+        for kind in ('stringio', 'named-none', 'named-int', 'pipe'):
+            for api in ('readGraph', 'from_file'):
+                yield {'gtype': gtype, 'route': 'no-format', 'stream': kind, 'api': api}
     for c in cases():
         for fmt in FORMATS[c['gtype']]:
             d = dict(c)
@@ -1220,6 +1263,7 @@ SUBCHECKS = [
     SubCheck('roundtrip', run_roundtrip, strategy=strat_roundtrip, enumerate_cases=enum_roundtrip,
              quick=2500, thorough=50000,
              rule="graphs of the four types with 0..14 vertices (10..14 in a third of the cases), random edge subsets of density 0, 1/2 .. 1/16 (isolated vertices, empty sides, loops and back edges for digraphs), default or generated one-line name, every format of supported_graph_formats() for the type, five routes: StringIO with explicit format / file name with the format taken from the extension and with explicit format / open file handle / Graph.from_file (name, name+format, handle+format) / command-line graph argument '<file>', '<format> <file>', '<format> -' (standard input) and 'save <file>' / 'save <format> <file>'; plus every simple graph and dag on <=4 vertices, digraph on <=3, bipartite graph with sides <=2 in every format through StringIO; oracle: class, vertex count, left/right split, list(edges()), number_of_edges(), is_dag() all as in the original, and (StringIO route, in-house formats) the written text means the same graph to the independent reference reader; non-trivial: >=1 edge and >=3 vertices. "
+                  "NO FORMAT NAMED: every graph type read with readGraph / from_file from a StringIO, from streams whose name is None or an integer and from the read end of a pipe (its name is a file descriptor) without a format: ValueError. "
                   "KIND OF STREAM (route 'stream', 3 of 8 generated cases + an enumerated sweep of every type x format x kind of source x entry point "
                   "on fixed graphs with 0..12 vertices): the graph is written by the tree into a destination that cannot seek (io.TextIOBase object "
                   "with write() only / write end of os.pipe() block or line buffered / a named pipe given by name to writeGraph / to the graph "
@@ -1237,7 +1281,7 @@ SUBCHECKS = [
              required_labels=_PAIRS + ['route:' + r for r in ROUTES] + ['>=10-vertices', 'isolated', 'empty-side',
                                                                        'null-graph', 'has-back-edge', 'self-loop',
                                                                        'named', 'last-vertex-isolated', 'written-text-valid',
-                                                                       'route:stream', 'route:subprocess', 'tool:readwrite',
+                                                                       'route:stream', 'route:subprocess', 'route:no-format', 'nameless:pipe', 'tool:readwrite',
                                                                        'tool:cnfgen-peb', 'tool:kthlist2pebbling', 'tool:cnfgen-domset'] +
              ['rstream:' + k for k in RKINDS] + ['wstream:' + k for k in WKINDS] + ['rapi:' + a for a in RAPIS]),
     SubCheck('readers_text', run_text, strategy=strat_text, enumerate_cases=enum_text,
